@@ -13,7 +13,7 @@ def fn(d):
   return '(' + ' @@ '.join(f'{tlc.tla(k)} :> {v(x)}' for k, x in d.items()) + ')'
 
 
-ALL_FIXES = frozenset({'stop_notify_enqueuers', 'stopped_flag', 'batch_recheck_done'})
+ALL_FIXES = frozenset({'stop_notify_enqueuers', 'stopped_flag', 'batch_recheck_done', 'batch_keeps_partial_on_error'})
 
 
 def make(prods, cons, *, cap=1, stoppers=None, declared=None, timeout=False, ignore_error=False, fixes=ALL_FIXES,
